@@ -250,7 +250,7 @@ func sortedInputs(maxLen int) [][]int {
 	return out
 }
 
-func Sorts(w *W, maxLen int) {
+func Sorts(w *W, maxLen int, lrng *rand.Rand) {
 	sorted := sortedInputs(maxLen)
 	for _, a := range sorted {
 		for k := 0; k <= 4; k++ {
@@ -299,6 +299,23 @@ func Sorts(w *W, maxLen int) {
 		})
 		w.call(Vec{Fn: "SliceStable", A: cp(a)}, func(v *Vec) { t := cp(a); xsort.SliceStable(t, lessKey); v.Out = t })
 		w.call(Vec{Fn: "SliceIsSorted", A: cp(a)}, func(v *Vec) { v.R = b2i(xsort.SliceIsSorted(a, lessKey)) })
+	}
+	// long inputs (13..60 items over 3 keys: sort implementations switch algorithm with the length); an item is
+	// 100*key + input position
+	less100 := func(a, b int) bool { return a/100 < b/100 }
+	for n := 0; n < 150; n++ {
+		l := 13 + lrng.Intn(48)
+		a := make([]int, l)
+		for i := range a {
+			a[i] = 100*(1+lrng.Intn(3)) + i + 1
+		}
+		w.call(Vec{Fn: "SliceStableLong", A: cp(a)}, func(v *Vec) { t := cp(a); xsort.SliceStable(t, less100); v.Out = t })
+		w.call(Vec{Fn: "SliceSortLong", A: cp(a)}, func(v *Vec) {
+			t := cp(a)
+			xsort.Slice(t, less100)
+			v.Out = t
+			v.R = b2i(xsort.SliceIsSorted(t, less100))
+		})
 	}
 	for a := 0; a <= 2; a++ {
 		for b := 0; b <= 2; b++ {
